@@ -6,7 +6,7 @@ import struct
 from lib.coqterm import cbytes, cbool, copt, clist, cN, hx, unhx
 
 ID = "C21"
-QUICK_N = 4000
+QUICK_N = 3000
 THOROUGH_N = 60000
 SHARD = 250
 RULE = ("Each case = options (proxyauth on/off, socks5_auth hook verdict, connection_strategy eager/lazy, "
